@@ -91,18 +91,24 @@ def listenerBindsClientName (ca : ClientAuth) : Bool := ca == .requireAndVerify
 /-- Is a stream to a TLS listener established?  `cert`: what the dialling node `source` presents (`none`: no
 certificate).  With a required client certificate the listener's verifier expects the source node's ID; with
 `clientcas` only, a certificate must be presented as well (the installed verifier refuses an empty chain) and must
-chain, be valid and usable by a client, but need not name the source; otherwise no certificate is asked for. -/
-def established (require hasCAs : Bool) (source : Bytes) (cert : Option Peer) : Bool :=
+chain, be valid and usable by a client, but need not name the source; otherwise no certificate is asked for.  In both
+verifying modes the pins of the profile apply.  `listenerKeepsPins` (regenerated fact): the per-connection verifier
+that the stream listener installs for the name binding *replaces* the profile's verifier; it has to keep the pins. -/
+def established (require hasCAs : Bool) (source : Bytes) (cert : Option Peer) (pins : List Bytes := [])
+    (listenerKeepsPins : Bool := true) : Bool :=
   match serverClientAuth require hasCAs with
   | .requireAndVerify =>
     (match cert with
      | none => false
-     | some p => decide { pins := [], expected := source, mode := .receptor, role := .client } p)
+     | some p =>
+       -- the profile's own verifier (pins; no name) and the listener's per-connection verifier (the source's name)
+       (!listenerKeepsPins || decide { pins := pins, expected := [], mode := .dns, role := .client } p) &&
+       decide { pins := [], expected := source, mode := .receptor, role := .client } p)
   | .verifyIfGiven =>
     -- the verifier is installed for this mode too and refuses an empty chain: in effect a certificate is needed
     (match cert with
      | none => false
-     | some p => decide { pins := [], expected := [], mode := .dns, role := .client } p)
+     | some p => decide { pins := pins, expected := [], mode := .dns, role := .client } p)
   | .noClientCert => true
 
 end Receptor.Verify
